@@ -135,6 +135,10 @@ def step (s : State) (j : Json) : Except String (State × Json × List Fired) :=
       fired := fired ++ [{ name := "request_fee_not_current_group_cost_only", detail := obs }]
     if ierr ≠ "" ∧ paid ≠ 0 then
       fired := fired ++ [{ name := "rejected_request_moved_coins", detail := obs }]
+    -- an accepted request is put to SOME group: with no current group and nothing assigned in the incoming one there is
+    -- nobody to sign, and the caller (a tunnel, the oracle) would take the failed request for a success
+    if ierr == "" ∧ curSid == 0 ∧ incSid == 0 then
+      fired := fired ++ [{ name := "request_accepted_without_any_group_signing", detail := obs }]
     pure (s, (dump s).setObjVal! "err" (js ierr), fired)
   | "payout" =>
     -- C13: completed signings pay only current-group signers
